@@ -22,7 +22,7 @@ func checkC08(c *Ctx) {
 	p := c.P
 	c.Decided = "a timeout enters the collector only after its view signature verified over its own view, only if the signature's signer set is exactly the authenticated sender, and (aggregate mode) only after its message signature verified; " +
 		"the collector de-duplicates by (view, sender), counts and returns only timeouts of the view of the message just added, compares that count with the configured quorum size with the right polarity; " +
-		"both timeout rules label the timeout certificate and the aggregate certificate with the timed-out view and build them from exactly the collected list; the resulting sync info reaches advanceView; old views are purged with a strict comparison."
+		"both timeout rules label the timeout certificate and the aggregate certificate with the timed-out view and build them from exactly the collected list; the resulting sync info reaches advanceView; old views are purged with a strict comparison. Both local timeout rules refuse only when signing failed."
 	c.NotDec = "that the assembled certificate verifies at other replicas (follows from C02.8 and the clauses above, not re-proved); timing."
 	c.Expect("C08.1", 1)
 	c.Expect("C08.3", 2)
